@@ -200,9 +200,9 @@ def _execute(sc, sim, out):
         cols = list(W.par_names) + (list(add.keys()) if st['additional'] else [])
         with _Spy() as spy:
             if st['op'] == 'wp':
-                r = pipe.call(write_parameters, arg, od + '/wp.txt', select_format=sel, additional=addd)
+                r = pipe.call(write_parameters, arg, od + '/wp.txt', select_format=pipe.sel_arg(sel), additional=addd)
             elif st['op'] == 'wpr':
-                r = pipe.call(write_parameter_ranges, arg, od + '/wpr.txt', select_format=sel, additional=addd)
+                r = pipe.call(write_parameter_ranges, arg, od + '/wpr.txt', select_format=pipe.sel_arg(sel), additional=addd)
             elif st['op'] == 'ep':
                 allcols = ['MODEL_NAME'] + list(W.par_names)
                 if st.get('ep_cols') == 'subset':
@@ -211,7 +211,7 @@ def _execute(sc, sim, out):
                     pcols = allcols[::-1]
                 else:
                     pcols = None
-                r = pipe.call(extract_parameters, arg, od + '/ep_', select_format=sel, parameters='all' if pcols is None else pcols,
+                r = pipe.call(extract_parameters, arg, od + '/ep_', select_format=pipe.sel_arg(sel), parameters='all' if pcols is None else pcols,
                               header=bool(st.get('ep_header', True)), output_suffix=st.get('ep_suffix'))
                 cols = list(W.par_names)
                 st = dict(st, _ep_expect=(pcols or allcols))
@@ -221,10 +221,10 @@ def _execute(sc, sim, out):
                 try:
                     if st['op'] == 'pp1':
                         out.probe('plot_params_1d')
-                        r = pipe.call(plot_params_1d, arg, W.par_names[0], output_dir=od + '/pp', select_format=sel, additional=addd, log_x=False)
+                        r = pipe.call(plot_params_1d, arg, W.par_names[0], output_dir=od + '/pp', select_format=pipe.sel_arg(sel), additional=addd, log_x=False)
                     else:
                         out.probe('plot_params_2d')
-                        r = pipe.call(plot_params_2d, arg, W.par_names[0], W.par_names[-1], output_dir=od + '/pp', select_format=sel, log_x=False, log_y=False)
+                        r = pipe.call(plot_params_2d, arg, W.par_names[0], W.par_names[-1], output_dir=od + '/pp', select_format=pipe.sel_arg(sel), log_x=False, log_y=False)
                         cols = list(W.par_names)
                 finally:
                     matplotlib.figure.Figure.savefig = saved
